@@ -83,17 +83,11 @@ def propagate(data, d, medium_index=None, illum_wavelen=None, cfsp=0,
 
     med_wavelen = data.illum_wavelen / data.medium_index
 
-    # Computing the transfer function will fail for d = 0. So, if we
-    # are asked to compute a reconstruction for a set of distances
-    # containing 0, we pull that distance out and then add in a copy
-    # of the input at the end.
-    contains_zero = False
+    # (a zero among a list of distances is propagated like any other: its
+    # transfer function is 1, so its slice is the input -- at its place in
+    # the list, labelled 0, as often as it was asked for)
     if not np.isscalar(d):
         d = np.array(d)
-        if (d == 0).any():
-            contains_zero = True
-            d_old = d
-            d = np.delete(d, np.nonzero(d == 0))
 
     G = trans_func(
         data, d, med_wavelen, cfsp=cfsp, gradient_filter=gradient_filter)
@@ -105,10 +99,6 @@ def propagate(data, d, medium_index=None, illum_wavelen=None, cfsp=0,
     # during fft/ifft
     res.name = 'propagation'
     res = res.to_dataset().update({'x': data.x, 'y': data.y})[res.name]
-
-    if contains_zero:
-        d = d_old
-        res = xr.concat([data, res], dim='z')
 
     return copy_metadata(data, res)
 
